@@ -281,7 +281,7 @@ theorem static_cond_schur {n nm nf : ℕ} (m : Fin nm → Fin n) (f : Fin nf →
   simp only [staticCondResponse, Bool.not_true, Bool.false_eq_true, if_false, Tab.get_tabulate]
   rw [hS.solve_eq_inv, Matrix.mul_assoc]
 
-/-- a dense matrix is rejected (`ndarray` has no `.todense()`) -/
+/-- a dense matrix is rejected (`ndarray` has no `.toarray()`) -/
 theorem static_cond_dense_rejected {n nm nf : ℕ} (m : Fin nm → Fin n) (f : Fin nf → Fin n)
     (A : Matrix (Fin n) (Fin n) α) (S : Solver nf α) :
     staticCondResponse false m f A S = .error .AttributeError := rfl
